@@ -184,7 +184,7 @@ TABLES = ('S', 'ST', 'SQ', 'Sx', 'QQ', 'QI', 'QT', 'Qx')
 # candidate defect of the pinned tree (documented in docs/C02_boris.md): for QI != IE or QE != EE the tables ST/QT no longer describe the
 # velocity update.  Recorded in the coverage data on every run; reported as a violation only when this is switched on (the
 # orchestrator decides between a fix and a known-findings entry matching {'kind': 'boris-nondefault-QI-QE'}).
-REPORT_NONDEFAULT_QD_DEFECT = False
+REPORT_NONDEFAULT_QD_DEFECT = True
 
 
 def exact_tables(QI, QE, Q, w):
